@@ -253,6 +253,8 @@ func NewEpochFromConfig(
 			}
 			ep.onClose = append(ep.onClose, gsfaIndex.Close)
 			ep.gsfaReader = gsfaIndex
+			// Set the epoch here, before the reader is shared between request handlers.
+			gsfaIndex.SetEpoch(ep.Epoch())
 
 			if gsfaIndex.Version() >= 2 {
 				gotIndexEpoch, ok := gsfaIndex.Meta().GetUint64(indexmeta.MetadataKey_Epoch)
